@@ -35,7 +35,7 @@ def run_calls(table, calls):
         try:
             out.append(["ok", canon(table[name](*args))])
         except BaseException as e:  # noqa
-            if isinstance(e, (KeyboardInterrupt, SystemExit)):
+            if isinstance(e, (KeyboardInterrupt, SystemExit)) or type(e).__name__ == "CaseTimeout":
                 raise
             out.append(["exc", type(e).__name__])
     return out
